@@ -5,7 +5,7 @@
    FsImpl = transcription of crates/turmoil-fs (checked against the crate by the
    correspondence run), FsSpec = the reference tree, FsSafe = the known classes. *)
 From TV.Lib Require Import Base.
-From TV.Fs Require Import FsImpl FsSpec FsSafe Refine C10_proofs.
+From TV.Fs Require Import FsImpl FsSpec FsSafe FsDurable FsKnown Refine Known C10_proofs.
 Open Scope N_scope.
 
 (* Refinement: for EVERY history (any length, any interleaving of handles, syncs
@@ -29,6 +29,21 @@ Theorem c10_refines_partial : forall l,
   forallb c10_op l = true -> known_free l = true ->
   Forall2 obs_ok (snd (srun init_sworld l)) (snd (run (init_world 0) l)).
 Proof. exact refines_lemma. Qed.
+
+(* Refinement with renames: the same statement for the crash-free histories that meet NO KNOWN CLASS
+   (FsKnown.kclasses - the narrow classes of known_findings.txt as gen/fam_fs.py decides them), over the
+   alphabet that also has the renames of regular files within one directory (onto a fresh name or over an
+   existing file): while the rename is pending, and after a directory sync flushed it, every observation -
+   lookups of both names, listings, reads through handles opened on the new name, data syncs, unlink of
+   the new name - is the observation of the plain POSIX tree.
+   _partial - excluded beyond the known classes (FsKnown.v, [ksafe] / [c10r_op]): create_dir_all /
+   remove_dir_all; renames between two different directories; any creation of a file at a name a file
+   left earlier (FsSafe.KRecreate; the known finding Recreate is narrower); a rename onto a name a
+   directory was removed from. *)
+Theorem c10_refines_renames_partial : forall l,
+  forallb c10r_op l = true -> ksafe 0 l = true ->
+  Forall2 obs_ok (snd (srun init_sworld l)) (snd (run (init_world 0) l)).
+Proof. exact refines_known. Qed.
 
 (* Sync operations never change anything observable: dropping any sync_all /
    sync_data / sync_dir from a history leaves every other observation equal to
@@ -129,7 +144,16 @@ Theorem c10_root_op_refuted :
   spec_out w_root_op 1 = OBool true /\ impl_out w_root_op 1 = OBool false.
 Proof. exact root_op_refuted_lemma. Qed.
 
+(* Non-vacuity of the rename-inclusive theorem: a data-synced file is renamed, looked up, listed, read
+   through a handle opened on the new name, and the rename is flushed. *)
+Example c10_renames_nonvacuous :
+  forallb c10r_op h_rename = true /\ ksafe 0 h_rename = true /\
+  snd (run (init_world 0) h_rename) =
+    [OOk; ONum 1; OOk; OOk; OOk; OErr ENOENT; OBytes [65]; ONames [3]; OOk; OBytes [65]; OOk; OBytes [65]].
+Proof. exact rename_nonvacuous_lemma. Qed.
+
 Print Assumptions c10_refines_partial.
+Print Assumptions c10_refines_renames_partial.
 Print Assumptions c10_sync_is_invisible.
 Print Assumptions c10_nonvacuous.
 Print Assumptions c10_time_is_invisible.
@@ -145,3 +169,4 @@ Print Assumptions c10_rename_clean_example.
 Print Assumptions c10_stale_handle_refuted.
 Print Assumptions c10_recreate_refuted.
 Print Assumptions c10_root_op_refuted.
+Print Assumptions c10_renames_nonvacuous.
